@@ -6,7 +6,7 @@ use vcore::Ctx;
 fn main() {
     let mut ctx = Ctx::init("C02");
     ctx.rule(
-        "Cases are the C01 operation histories (sizes 1..=130 and a class of large trees up to 2^12 quick / 2^16 thorough); the judged operations are lower_bound(l, pred) and lower_bound_rev(r, pred) with an \
+        "Cases are the C01 operation histories (sizes 1..=130 and a class of large trees up to 2^12 quick / 2^15 thorough); the judged operations are lower_bound(l, pred) and lower_bound_rev(r, pred) with an \
          instrumented predicate from a family that is verified monotone on the model before use (const-true, const-false, sum>=t, \
          min<=t, max>=t, len>=k, contains c; thresholds taken from the model's own prefix folds +-1). Oracle: the result equals the \
          brute-force first (last) index, None iff none; every aggregate shown to the predicate equals the in-order model fold of some \
@@ -38,8 +38,8 @@ fn main() {
         ctx.prop(&name, "segtree-history", per_alg, case(Some(alg), max_ops), |c| run_case(c, Focus::Search));
     }
     // large trees (depth up to 13 quick / 17 thorough): few, short histories
-    let lg = ctx.n(12, 16) as u32;
-    ctx.prop_split("histories-large-trees", "segtree-history", ctx.n(250, 12_000), ctx.parts(), case_large(None, lg, 40).boxed(), |c| run_case(c, Focus::Search));
+    let lg = ctx.n(12, 15) as u32;
+    ctx.prop_split("histories-large-trees", "segtree-history", ctx.n(250, 3_000), ctx.parts(), case_large(None, lg, 40).boxed(), |c| run_case(c, Focus::Search));
     // huge trees (height 21..23): SumAdd with non-negative values, prefix-sum oracle
     ctx.replayer("segtree-huge", |v| run_huge(&serde_json::from_value::<HugeCase>(v.clone()).expect("case"), Focus::Search));
     ctx.prop_cfg("huge-trees", "segtree-huge", ctx.n(6, 60), 60, huge_case(vec![1 << 22, (1 << 21) + 1, 3 * (1 << 20) + 5, (1 << 22) + 7], 40), |c| run_huge(c, Focus::Search));
